@@ -22,10 +22,13 @@ ASSUMPTIONS = ['theorems are over the reals for every oracle with the contract I
                'generated sets keep the second largest principal extent above 5 % (double) / 20 % (float) of the largest so '
                'that 1e-9 / 1e-4 is attainable in floating point; collinear 3D sets are only checked for a proper rotation',
                'preconditioning = PreconditionedPointSet(points, scale), the constructor the library itself uses here; '
-               'both sets with the same scale (different scales are run for the correspondence check only)']
-EXPLANATION = ('proof (Lean, over the reals, for every SVD oracle) that the returned linear part is a proper rotation, of '
-               'exact recovery incl. the rank-deficient case, and of the invariances, on a line-by-line model tied to the C++ '
-               'by a differential correspondence check within tolerance; property probe with an independent long double solver')
+               'both sets with the same scale, as everywhere in the library (two different scales are outside the property: the '
+               'protocol accepts them, the generators do not produce them)']
+EXPLANATION = ('proof (Lean, over the reals, for every SVD oracle meeting the contract on the decomposed matrix) that the returned '
+               'linear part is orthogonal with determinant +1, of exact recovery incl. the rank d-1 (coplanar 3D / collinear 2D) '
+               'case, of least-squares optimality in 2D and 3D, and of the invariances (correspondence order, homogeneous = '
+               'Cartesian, isotropic preconditioning), on a line-by-line model of estimate_/find tied to the C++ by a differential '
+               'correspondence check within tolerance; property probe with an independent long double solver')
 HANG_SECS = 30
 
 TOL = {'d': 1e-9, 'f': 1e-4}
@@ -185,7 +188,7 @@ def make_case(rng, tier, idx, force=None):
         add(fmt_pts('src', dim, fk, s_), None)
         add(fmt_pts('tgt', dim, fk, t_), None)
         add('svd.find c corr ' + fmt_corr(corr), {'role': 'base', 'fk': fk})
-        variants = ['perm', 'hom', 'pre', 'hompre', 'all', 'pall', 'diffscale']
+        variants = ['perm', 'hom', 'pre', 'hompre', 'all', 'pall']
         rng.shuffle(variants)
         nvar = 3 if tier == 'quick' else 4
         for v in variants[:nvar]:
@@ -207,10 +210,6 @@ def make_case(rng, tier, idx, force=None):
             elif v == 'pall' and identity:
                 tag = {'role': 'inv', 'fk': fk, 'what': 'scale-no-corr'} if len(corr) == n else {'role': 'other', 'fk': fk}
                 add('svd.find %s pall %s %s' % (rng.choice('ch'), stok(scale), stok(scale)), tag)
-            elif v == 'diffscale':
-                s2 = scale * rng.uniform(0.1, 10)
-                add('svd.find %s pcorr %s %s %s' % (rng.choice('ch'), fmt_corr(corr), stok(scale), stok(s2)),
-                    {'role': 'tie-only', 'fk': fk})
     meta = {'dim': dim, 'n': n, 'kind': kind, 'noise': noise, 'Q': Q, 't': t, 'size': size, 'tags': tags,
             'ncorr': len(corr), 'corr': ckind, 'identity': identity, 'scale': scale}
     return {'name': 'svd-%s-%dd-%d' % (kind, dim, idx), 'lines': lines, 'meta': meta}
@@ -218,7 +217,7 @@ def make_case(rng, tier, idx, force=None):
 
 def gen_cases(rng, tier):
     cases = []
-    n_cases = 400 if tier == 'quick' else 5000
+    n_cases = 400 if tier == 'quick' else 20000
     # boundary stream: every kind in both dimensions, 3 points, rotation pi
     i = 0
     for dim in (2, 3):
@@ -341,6 +340,7 @@ def oracle(case, out, stats):
     meta = case.get('meta', {})
     tags = meta.get('tags')
     base = {}       # fk -> matrix of the base call
+    npts = 1
     for li, (line, o) in enumerate(zip(case['lines'], out)):
         tk = line.split()
         op = tk[0]
@@ -355,6 +355,8 @@ def oracle(case, out, stats):
         if o in ('abort', 'hang', 'exception', 'skipped', 'bad-op'):
             bad('outcome-' + o, 'unexpected outcome')
             break
+        if op == 'svd.pts':
+            npts = int(tk[4])
         if op != 'svd.find':
             continue
         m, ex = split_out(o)
@@ -395,7 +397,7 @@ def oracle(case, out, stats):
         stats['well_conditioned' if well else 'ill_conditioned'] = stats.get('well_conditioned' if well else 'ill_conditioned', 0) + 1
         refscale = max(ex['refscale'], 1e-300)
         tmax = max(max(abs(M[i][dim]) for i in range(dim)), refscale)
-        npairs = meta.get('ncorr', 0) or 1
+        npairs = int(tk[3]) if tk[2] in ('corr', 'pcorr') else npts
         # -- the data is a rigid image (known from the generator, or, for corpus cases, because the independent solution fits exactly)
         exact = (meta.get('noise') == 0.0) if 'noise' in meta else (ex['costR'] <= (1e-13 * refscale) ** 2 * 1e3)
         if exact and well:
@@ -416,7 +418,8 @@ def oracle(case, out, stats):
             if not (ex['dR'] <= tol and ex['dT'] <= tol * tmax):
                 bad('not-least-squares', 'differs from the independent Kabsch/Horn solution: dR %g dt %g (scale %g); cost %r vs %r'
                     % (ex['dR'], ex['dT'], tmax, ex['costI'], ex['costR']), fk=fk, dim=dim, kind=meta.get('kind'))
-            if not ex['costI'] <= ex['costR'] * (1 + 100 * tol) + (tol * tmax) ** 2:
+            # every residual may carry the property's own tolerance tol * scale: allow npairs * dim of them
+            if not ex['costI'] <= ex['costR'] * (1 + 100 * tol) + npairs * dim * (tol * tmax) ** 2:
                 bad('cost-not-minimal', 'cost %r exceeds the reference cost %r' % (ex['costI'], ex['costR']), fk=fk, dim=dim)
         # -- invariances against the base call of the same precision; float against double
         if tag['role'] == 'base':
